@@ -563,7 +563,12 @@ def c18_oracle(full, io, b):
     return out
 
 
-register(Prop("C18", c18_streams, compare=lambda op: op.split("\t")[0] in ("hq", "bld", "hr", "cmp") or obs_filter(["human_repr", "str", "val"])(op), oracle=c18_oracle,
+def c18_extra(scratch, rng, tier, budget):
+    import extras
+    return extras.run_human_min(scratch)
+
+
+register(Prop("C18", c18_streams, compare=lambda op: op.split("\t")[0] in ("hq", "bld", "hr", "cmp") or obs_filter(["human_repr", "str", "val"])(op), oracle=c18_oracle, extra=c18_extra,
               assumptions=["str.isprintable() for non-ASCII characters and IDNA decoding are oracle tables"]))
 
 
